@@ -1,10 +1,14 @@
 ------------------------------ MODULE Registry ------------------------------
 (***************************************************************************)
 (* The decoration registry (texttable/decoration/registry.go): a map from  *)
-(* name to decoration behind one mutex.  Every operation is lock; body;    *)
+(* name to decoration behind a lock.  Every operation is lock; body;       *)
 (* unlock -- three separately enabled steps, so that TLC explores every    *)
 (* interleaving of the processes.  The body step is the linearization      *)
 (* point (the hook of the verif build fires there, under the lock).        *)
+(* The lock is modelled as a readers/writer lock: a registration excludes  *)
+(* everything, lookups and listings exclude registrations only.  That is   *)
+(* all the property needs; the implementation's plain mutex (which also    *)
+(* serialises readers) is one refinement of it, a RWMutex another.         *)
 (*                                                                         *)
 (* Processes run fixed programs: sequences of                              *)
 (*   [op |-> "register", name, d]  [op |-> "named", name]  [op |-> "list"] *)
@@ -14,7 +18,7 @@ EXTENDS Integers, Sequences, FiniteSets, TLC
 CONSTANTS Procs, Prog, Builtins      \* Prog: [Procs -> Seq(op)], Builtins: [name -> decoration id]
 
 VARIABLES reg,      \* name -> decoration id
-          lock,     \* 0 or the process holding the lock
+          lock,     \* [writer |-> 0 or the registering process, readers |-> set of processes reading]
           pc,       \* [Procs -> "idle" | "locked" | "done-body"]
           ip,       \* [Procs -> index of the current op]
           results,  \* [Procs -> Seq(result)]
@@ -29,17 +33,23 @@ Lookup(r, n) == IF n \in DOMAIN r THEN r[n] ELSE Empty
 \* trace validation by comparing with the sorted expectation the driver computes)
 Listing(r) == DOMAIN r
 
-Init == /\ reg = Builtins /\ lock = 0
+IsWrite(o) == o.op = "register"
+Free == lock.writer = 0 /\ lock.readers = {}
+Holds(p) == lock.writer = p \/ p \in lock.readers
+
+Init == /\ reg = Builtins /\ lock = [writer |-> 0, readers |-> {}]
         /\ pc = [p \in Procs |-> "idle"] /\ ip = [p \in Procs |-> 1]
         /\ results = [p \in Procs |-> <<>>] /\ order = <<>>
 
 CurOp(p) == Prog[p][ip[p]]
 
-Lock(p) == /\ pc[p] = "idle" /\ ip[p] <= Len(Prog[p]) /\ lock = 0
-           /\ lock' = p /\ pc' = [pc EXCEPT ![p] = "locked"]
+Lock(p) == /\ pc[p] = "idle" /\ ip[p] <= Len(Prog[p])
+           /\ IF IsWrite(CurOp(p)) THEN Free /\ lock' = [lock EXCEPT !.writer = p]
+              ELSE lock.writer = 0 /\ lock' = [lock EXCEPT !.readers = @ \cup {p}]
+           /\ pc' = [pc EXCEPT ![p] = "locked"]
            /\ UNCHANGED <<reg, ip, results, order>>
 
-Body(p) == /\ pc[p] = "locked" /\ lock = p
+Body(p) == /\ pc[p] = "locked" /\ Holds(p)
            /\ LET o == CurOp(p) IN
               /\ reg' = IF o.op = "register"
                         THEN [n \in DOMAIN reg \cup {o.name} |-> IF n = o.name THEN o.d ELSE reg[n]]
@@ -52,8 +62,9 @@ Body(p) == /\ pc[p] = "locked" /\ lock = p
            /\ pc' = [pc EXCEPT ![p] = "done-body"]
            /\ UNCHANGED <<lock, ip>>
 
-Unlock(p) == /\ pc[p] = "done-body" /\ lock = p
-             /\ lock' = 0 /\ pc' = [pc EXCEPT ![p] = "idle"] /\ ip' = [ip EXCEPT ![p] = @ + 1]
+Unlock(p) == /\ pc[p] = "done-body" /\ Holds(p)
+             /\ lock' = IF lock.writer = p THEN [lock EXCEPT !.writer = 0] ELSE [lock EXCEPT !.readers = @ \ {p}]
+             /\ pc' = [pc EXCEPT ![p] = "idle"] /\ ip' = [ip EXCEPT ![p] = @ + 1]
              /\ UNCHANGED <<reg, results, order>>
 
 Next == \E p \in Procs : Lock(p) \/ Body(p) \/ Unlock(p)
@@ -64,7 +75,12 @@ AllDone == \A p \in Procs : ip[p] > Len(Prog[p])
 -----------------------------------------------------------------------------
 (* C17 on the model *)
 
-MutualExclusion == Cardinality({p \in Procs : pc[p] # "idle"}) <= 1
+\* a registration in progress excludes every other operation; readers may overlap
+InCS == {p \in Procs : pc[p] # "idle"}
+MutualExclusion ==
+  /\ \A p \in InCS : Holds(p)
+  /\ \A p \in InCS : IsWrite(CurOp(p)) => InCS = {p}
+  /\ (lock.writer # 0 => lock.readers = {})
 
 \* the sequential meaning of the registry along the linearization order
 RECURSIVE Replay(_, _)
